@@ -107,6 +107,7 @@ def run(chk):
               'the dense and to the event coordinate, copies shallowly and does not reorder events (assumed; bounded validation)')
     chk.section('_utils', utils_contract)
     chk.section('kernels apply only lifting operations to the data operand', lifting)
+    chk.section('the gravity drop applies only lifting operations to the wavelength', lifting_gravity)
     chk.decided('lemma/a composition of element-wise (lifting) operations is element-wise', True, detail='structural induction over the expression; stated once')
     bounded_events(chk)
     bounded_gravity_events(chk)
@@ -151,6 +152,7 @@ def lifting(chk):
         cases.append((mod, kname, spec['args'], spec['data'][0]))
     for kname, ename in (('energy_transfer_direct_from_tof', 'incident_energy'), ('energy_transfer_indirect_from_tof', 'final_energy')):
         cases.append((mod, kname, {'tof': 'time', 'L1': 'length', 'L2': 'length', ename: 'energy'}, 'tof'))
+    outside = []
     for m, kname, args, data in cases:
         for dt in (F64, F32, I64):
             with Taint() as t:
@@ -161,7 +163,10 @@ def lifting(chk):
                 try:
                     paths = chk.explore(call, base=kit.CONST_AXIOMS, catch=(Exception,))
                 except core.Unsupported as e:
-                    paths = []
+                    # the kernel (as it is now) uses something outside the model: which operations reach the data operand cannot be
+                    # read off a symbolic run -- this kernel rests on the per-event stand-in
+                    outside.append(f'{kname}[{dt}]: {e}'[:160])
+                    continue
                 try:
                     # alias_forks: a unit conversion with copy=False returns the operand itself when the caller's unit happens to be the
                     # target unit -- both cases are explored, so an in-place operation behind such a conversion is seen
@@ -175,6 +180,12 @@ def lifting(chk):
             bad = [o for o in ops if o not in LIFTING and o not in ELEMENTWISE_MATH]
             chk.decided(f'conversion.tof:{kname}/only element-wise operations touch the data operand `{data}`[{dt}]', not bad and bool(ops) and all(p.kind == 'return' or dt == I64 for p in paths),
                         detail=f'operations on the data operand: {ops}; not element-wise: {bad}', meta={'ops': ops})
+    if outside:
+        raise core.Unsupported('; '.join(outside)[:400])
+
+
+def lifting_gravity(chk):
+    bl = kit.load('conversion.beamline')
     # gravity drop with binned wavelength
     chk.function('conversion.beamline', '_drop_due_to_gravity')
     with Taint() as t:
@@ -296,7 +307,12 @@ def event_failures(n, seed, limit=3):
                             want = tof.energy_transfer_indirect_from_tof(tof=tv, L1=sc.scalar(L1, unit='m'), L2=sc.scalar(L2, unit='m'), final_energy=da.coords['final_energy'])
                         g = got.values[lo:hi]
                         w = want.to(unit=got.unit).values
-                        if not np.allclose(g, w, rtol=1e-12 if dt != 'float32' else 1e-5, atol=0, equal_nan=True):
+                        rt = 1e-12 if dt != 'float32' else 1e-5
+                        # an energy transfer is a difference of two energies: next to the elastic line the agreement is relative to
+                        # the energies subtracted, not to their (cancelling) difference
+                        fixed = da.coords.get('incident_energy', da.coords.get('final_energy')) if target == 'energy_transfer' else None
+                        at = rt * abs(float(fixed.to(unit=got.unit, dtype='float64').value)) if fixed is not None else 0
+                        if not np.allclose(g, w, rtol=rt, atol=at, equal_nan=True):
                             prob = f'event values of pixel {p}, bin {k} differ from the dense kernel: {g[:2]} vs {w[:2]}'
                             break
                     if prob:
